@@ -1,22 +1,28 @@
-import SaModel.Lemmas.C07TIdem
+import SaModel.Lemmas.C07LMain
 /-
 C07 at tree level — the traced tracer tree does not depend on sample order, for arbitrary nested samples.
-Model: SaModel/Trace/{Tracer,FromSamples}.lean (repaired code, `Code.fixed`).  Lemmas: SaModel/Lemmas/C07T*.lean.
+Model: SaModel/Trace/{Tracer,FromSamples}.lean (repaired code, `Code.fixed`).  Lemmas: SaModel/Lemmas/C07T*.lean (swap /
+congruence / schema), SaModel/Lemmas/C07L*.lean (least upper bound).
 
 * `TracerEquiv` (`≃`): the equivalence the property allows on tracer trees — struct fields are compared as a finite
   map by name (any order), `last_seen_in_sample` is ignored, `seen_samples` is compared only as zero / non-zero;
   everything else (names, paths, nullable flags, leaf types, struct mode, tuple positions, variant slots) is equal.
 * `Reachable o t`: the invariant every tracer built by `from_samples` satisfies (leaf states of the alphabet, distinct
   field names, `last_seen_in_sample < seen_samples`).
-* `absorb_congr`, `absorb_reachable`, `absorb_comm`, `absorb_idem`, `absorbAll_perm`, `absorbAll_repeat`,
-  `fromSamplesTracer_perm`: the laws on tracer trees, for ALL nested samples (every constructor of `SVal`, including
-  malformed map streams) and every reachable tracer.
-* `tracerEquiv_schema`: equivalent reachable tracers give `Spec.schemaEquiv` schemas or fail alike; hence
-  `fromSamples_perm` (= `C07_permutation` + `C07_success_order`) and `fromSamples_repeat` (= `C07_repeat`) on the traced
-  schemas.
-Side condition of the swap / repetition laws: `allow_to_string = false` (decidable; `allow_to_string_needed` shows by
-evaluation that the swap law fails without it).  With `allow_to_string` only the leaf-level statement
-`leaf_order_and_repetition` (Props/C07.lean) is proved.
+* `TracerLe o t u` (`⊑`): the information order (leaf: the coercion order of the leaf tables; nullable `false ⊑ true`;
+  `Unknown` / `Null` below every node with the canonical names and paths; struct: fields by name, missing ⊑ present
+  (nullable once a sample has been seen), mode `struct ⊑ map`; tuple / union by position; list / map pointwise).
+  `tracerLe_antisymm`: `t ⊑ u ⊑ t` gives `t ≃ u`.
+* `absorb_lub` (EVERY option setting, `allow_to_string` included): a successful `absorb t x = a` is the LEAST tracer
+  above `t` that has absorbed `x`: `t ⊑ a`, and for every reachable `u ⊒ t`: `u` absorbs `x` without moving ⇔ `a ⊑ u`.
+* `absorbAll_same_set`: two runs from one tracer over the same SET of nested samples (any order, any multiplicity) that
+  both succeed end in equivalent tracers; `absorb_idem`, `absorbAll_repeat` — no side condition.
+* `absorb_congr`, `absorb_reachable`, `absorb_comm`, `absorbAll_perm`, `fromSamplesTracer_perm`: the swap laws
+  (both orders fail TOGETHER) — these need `allow_to_string = false` (`allow_to_string_needed`).
+* `tracerEquiv_schema`: equivalent reachable tracers give `Spec.schemaEquiv` schemas or fail alike; hence on schemas
+  `C07_permutation` (two orders that both succeed give equivalent schemas — every option setting), `C07_repeat`
+  (tracing `xs ++ xs` is tracing `xs` — every option setting), `C07_success_order` (unless `allow_to_string`, success
+  itself does not depend on the order).
 -/
 namespace SaModel.Props.C07
 open SaModel SaModel.Trace SaModel.Lemmas.C07
@@ -86,19 +92,55 @@ theorem fromSamplesTracer_perm (o : Options) (hno : o.allow_to_string = false) {
       | error _ => rfl
       | ok b' => rw [(fromSamplesTracer_ok.mp hf).1] at h2; cases h2
 
-/-- `absorb_idem`: a sample that has been absorbed is absorbed again without changing the tracer -/
-theorem absorb_idem (o : Options) (hno : o.allow_to_string = false) {t t' : Tracer} (ht : Reachable o t) (x : SVal)
-    (h : absorb .fixed o t x = .ok t') : OutEq' o (absorb .fixed o t' x) (.ok t') := by
-  obtain ⟨b, hb, he⟩ := idem_any hno x t t' ht h
-  have hw' := absorb_reachable o x ht h
-  exact .inl ⟨b, t', hb, rfl, he, absorb_reachable o x hw' hb, hw'⟩
+/-! ### the least-upper-bound law (every option setting) -/
 
-/-- tracing a list twice is tracing it once (same failure, equivalent tracers) -/
-theorem absorbAll_repeat (o : Options) (hno : o.allow_to_string = false) {t : Tracer} (ht : Reachable o t)
+/-- the information order on tracer trees -/
+abbrev TracerLe (o : Options) (t u : Tracer) : Prop := TLe o t u
+
+theorem tracerLe_refl (o : Options) {t : Tracer} (ht : Reachable o t) : TracerLe o t t := TLe_refl o t ht
+
+theorem tracerLe_trans {o : Options} {a b c : Tracer} (ha : Reachable o a) (hb : Reachable o b) (hc : Reachable o c)
+    (h1 : TracerLe o a b) (h2 : TracerLe o b c) : TracerLe o a c := TLe_trans h1 ha hb hc h2
+
+theorem tracerLe_antisymm {o : Options} {a b : Tracer} (ha : Reachable o a) (hb : Reachable o b)
+    (h1 : TracerLe o a b) (h2 : TracerLe o b a) : TracerEquiv a b := eqv_of_le ha hb h1 h2
+
+/-- `absorb_lub`: a successful `absorb t x = a` is the least tracer above `t` that has absorbed `x` — for every nested
+sample, every reachable tracer and EVERY option setting (`allow_to_string` included): `t ⊑ a`, and a reachable `u ⊒ t`
+absorbs `x` without moving up exactly when `a ⊑ u` -/
+theorem absorb_lub (o : Options) {t a : Tracer} (x : SVal) (ht : Reachable o t) (h : absorb .fixed o t x = .ok a) :
+    TracerLe o t a ∧ ∀ u, Reachable o u → TracerLe o t u →
+      ((∃ b, absorb .fixed o u x = .ok b ∧ TracerLe o b u) ↔ TracerLe o a u) := by
+  refine ⟨(lub_any o x t t a ht ht (TLe_refl o t ht) h).1, ?_⟩
+  intro u hu htu
+  obtain ⟨_, L2, L3⟩ := lub_any o x t u a ht hu htu h
+  constructor
+  · rintro ⟨b, hb, hle⟩
+    exact TLe_trans (L2 b hb) (absorb_reachable o x ht h) (absorb_reachable o x hu hb) hu hle
+  · exact L3
+
+/-- two runs from one reachable tracer over the same SET of nested samples — any order, any multiplicity — that both
+succeed end in equivalent tracers (every option setting) -/
+theorem absorbAll_same_set (o : Options) {xs ys : List SVal} {t t1 t2 : Tracer} (ht : Reachable o t)
+    (hset : ∀ x, x ∈ xs ↔ x ∈ ys) (h1 : absorbAll .fixed o t xs = .ok t1) (h2 : absorbAll .fixed o t ys = .ok t2) :
+    TracerEquiv t1 t2 := same_set_eqv ht h1 h2 hset
+
+/-- `absorb_idem`: a sample that has been absorbed is absorbed again without changing the tracer (every option
+setting) -/
+theorem absorb_idem (o : Options) {t t' : Tracer} (ht : Reachable o t) (x : SVal)
+    (h : absorb .fixed o t x = .ok t') : OutEq' o (absorb .fixed o t' x) (.ok t') := by
+  have hw' := absorb_reachable o x ht h
+  obtain ⟨b, hb, he⟩ := run_again (xs := [x]) ht (absorbAll_cons_mk h rfl)
+  obtain ⟨m, h1, h2⟩ := absorbAll_cons_ok hb
+  cases h2
+  exact .inl ⟨b, t', h1, rfl, he, absorb_reachable o x hw' h1, hw'⟩
+
+/-- tracing a list twice is tracing it once (same failure, equivalent tracers; every option setting) -/
+theorem absorbAll_repeat (o : Options) {t : Tracer} (ht : Reachable o t)
     (xs : List SVal) : OutEq' o (absorbAll .fixed o t (xs ++ xs)) (absorbAll .fixed o t xs) := by
   cases h : absorbAll .fixed o t xs with
   | ok t' =>
-    obtain ⟨b, hb, he⟩ := idem_list hno (fun x _ => idem_any hno x) ht h
+    obtain ⟨b, hb, he⟩ := run_again ht h
     have hw' := absorbAll_wf o ht h
     exact .inl ⟨b, t', absorbAll_append_mk h hb, rfl, he, absorbAll_wf o hw' hb, hw'⟩
   | error e =>
@@ -129,12 +171,12 @@ theorem fromSamples_success_order (o : Options) (hno : o.allow_to_string = false
   · rw [h1, h2]; rfl
   · rw [h1, h2]
 
-/-- `C07_repeat` for arbitrary nested samples: tracing a collection twice is tracing it once -/
-theorem fromSamples_repeat (o : Options) (hno : o.allow_to_string = false) (xs : List SVal) :
+/-- `C07_repeat` for arbitrary nested samples, every option setting: tracing a collection twice is tracing it once -/
+theorem fromSamples_repeat (o : Options) (xs : List SVal) :
     SchemaOutEq' (fromSamples .fixed o (xs ++ xs)) (fromSamples .fixed o xs) := by
   apply schema_of_tracers
   have hn := reachable_new o "$" "$"
-  rcases absorbAll_repeat o hno hn xs with ⟨a, b, h1, h2, he, hwa, hwb⟩ | ⟨h1, h2⟩
+  rcases absorbAll_repeat o hn xs with ⟨a, b, h1, h2, he, hwa, hwb⟩ | ⟨h1, h2⟩
   · cases hc : a.check o with
     | ok u =>
       refine .inl ⟨a, b, fromSamplesTracer_ok.mpr ⟨h1, hc⟩, fromSamplesTracer_ok.mpr ⟨h2, ?_⟩, he, hwa, hwb⟩
@@ -159,27 +201,47 @@ theorem fromSamples_repeat (o : Options) (hno : o.allow_to_string = false) (xs :
       | error _ => rfl
       | ok b' => rw [(fromSamplesTracer_ok.mp hf).1] at h2; cases h2
 
-/-! ### the statements of DESIGN.md section 5 -/
-
-/-- `C07_permutation_partial`: two permutations of a sample collection that both trace successfully give equivalent
-schemas.  Partial: proved for `allow_to_string = false` (then success itself is order independent,
-`C07_success_order`); MISSING: `allow_to_string = true` for nested samples (proved at leaf positions only:
-`leaf_order_and_repetition`) -/
-theorem C07_permutation_partial (o : Options) (hno : o.allow_to_string = false) {xs ys : List SVal} (hp : xs.Perm ys)
+/-- two sample collections with the same SET of samples — any order, any multiplicity — that both trace successfully
+give equivalent schemas (every option setting; the tree-level form of `leaf_order_and_repetition`) -/
+theorem fromSamples_same_set (o : Options) {xs ys : List SVal} (hset : ∀ x, x ∈ xs ↔ x ∈ ys)
     {s₁ s₂ : List Field} (h1 : fromSamples .fixed o xs = .ok s₁) (h2 : fromSamples .fixed o ys = .ok s₂) :
     Spec.schemaEquiv s₁ s₂ = true := by
-  rcases fromSamples_perm o hno hp with ⟨s, s', e1, e2, he⟩ | ⟨e1, _⟩
-  · rw [h1] at e1; rw [h2] at e2; cases e1; cases e2; exact he
+  have hn := reachable_new o "$" "$"
+  have tr_ok : ∀ {zs : List SVal} {s : List Field}, fromSamples .fixed o zs = .ok s →
+      ∃ a, fromSamplesTracer .fixed o zs = .ok a := by
+    intro zs s h
+    rw [fromSamples_eq] at h
+    cases hf : fromSamplesTracer .fixed o zs with
+    | ok a => exact ⟨a, rfl⟩
+    | error e => rw [hf] at h; cases h
+  obtain ⟨a, ha⟩ := tr_ok h1
+  obtain ⟨b, hb⟩ := tr_ok h2
+  have ha' := (fromSamplesTracer_ok.mp ha).1
+  have hb' := (fromSamplesTracer_ok.mp hb).1
+  have he := absorbAll_same_set o hn hset ha' hb'
+  have hout : OutEq' o (fromSamplesTracer .fixed o xs) (fromSamplesTracer .fixed o ys) :=
+    .inl ⟨a, b, ha, hb, he, absorbAll_wf o hn ha', absorbAll_wf o hn hb'⟩
+  rcases schema_of_tracers hout with ⟨s, s', e1, e2, he'⟩ | ⟨e1, _⟩
+  · rw [h1] at e1; rw [h2] at e2; cases e1; cases e2; exact he'
   · rw [h1] at e1; cases e1
+
+/-! ### the statements of DESIGN.md section 5 -/
+
+/-- `C07_permutation`: two permutations of a sample collection that both trace successfully give equivalent schemas —
+arbitrary nested samples, EVERY option setting (with `allow_to_string` success itself may depend on the order:
+`allow_to_string_needed`; without it see `C07_success_order`) -/
+theorem C07_permutation (o : Options) {xs ys : List SVal} (hp : xs.Perm ys)
+    {s₁ s₂ : List Field} (h1 : fromSamples .fixed o xs = .ok s₁) (h2 : fromSamples .fixed o ys = .ok s₂) :
+    Spec.schemaEquiv s₁ s₂ = true := fromSamples_same_set o (fun _ => hp.mem_iff) h1 h2
 
 /-- `C07_success_order`: unless `allow_to_string`, success does not depend on the order of the collection -/
 theorem C07_success_order (o : Options) (hno : o.allow_to_string = false) {xs ys : List SVal} (hp : xs.Perm ys) :
     (fromSamples .fixed o xs).isOk = (fromSamples .fixed o ys).isOk := fromSamples_success_order o hno hp
 
-/-- `C07_repeat_partial`: tracing a collection twice fails iff tracing it once fails and otherwise gives an equivalent
-schema.  Partial: MISSING `allow_to_string = true` for nested samples (leaf positions: `leaf_repeat`) -/
-theorem C07_repeat_partial (o : Options) (hno : o.allow_to_string = false) (xs : List SVal) :
-    SchemaOutEq' (fromSamples .fixed o (xs ++ xs)) (fromSamples .fixed o xs) := fromSamples_repeat o hno xs
+/-- `C07_repeat`: tracing a collection twice fails iff tracing it once fails and otherwise gives an equivalent
+schema — arbitrary nested samples, EVERY option setting -/
+theorem C07_repeat (o : Options) (xs : List SVal) :
+    SchemaOutEq' (fromSamples .fixed o (xs ++ xs)) (fromSamples .fixed o xs) := fromSamples_repeat o xs
 
 /-! ### the side condition is needed; non-vacuity -/
 
@@ -220,5 +282,41 @@ example : (absorb .fixed {} (Tracer.new "$" "$") (zrec [("a", zrec [("p", zseq [
 field order) both trace successfully -/
 example : (fromSamples .fixed {} (itemsOf [wRec, wMap])).isOk = true ∧ [wRec, wMap].Perm [wMap, wRec] :=
   ⟨C07_struct_map_mode.2, List.Perm.swap _ _ _⟩
+
+/-! non-vacuity of the `allow_to_string` case: nested samples (a list of optionals inside a struct inside a struct)
+whose leaves meet as `i64` / `str` / `bool` in different orders: both orders trace successfully (to strings), the
+schemas are equivalent by `C07_permutation`, and the samples are absorbed with a change (`absorb_lub` is not about a
+fixed point only) -/
+def wTs1 : SVal := zrec [("a", zrec [("p", zseq [zi 1, .none]), ("q", .bool true)])]
+def wTs2 : SVal := zrec [("a", zrec [("q", .str "x"), ("p", zseq [.str "y"])])]
+
+example : (fromSamples .fixed { allow_to_string := true } (itemsOf [wTs1, wTs2])).isOk = true ∧
+    (fromSamples .fixed { allow_to_string := true } (itemsOf [wTs2, wTs1])).isOk = true ∧
+    (itemsOf [wTs1, wTs2]).Perm (itemsOf [wTs2, wTs1]) := ⟨by decide, by decide, List.Perm.swap _ _ _⟩
+
+/-- `C07_repeat` under `allow_to_string`: the doubled collection succeeds -/
+example : (fromSamples .fixed { allow_to_string := true } (itemsOf [wTs1, wTs2] ++ itemsOf [wTs1, wTs2])).isOk = true := by
+  decide
+
+/-- `absorb_lub` is used at a step that moves the tracer: the second sample is absorbed into the result of the first
+and changes it -/
+example : ∃ a b, absorb .fixed { allow_to_string := true } (Tracer.new "$" "$") wTs1 = .ok a ∧
+    absorb .fixed { allow_to_string := true } a wTs2 = .ok b ∧ a ≠ b := by
+  have h : (absorb2 .fixed { allow_to_string := true } (Tracer.new "$" "$") wTs1 wTs2).isOk = true := by decide
+  cases h1 : absorb .fixed { allow_to_string := true } (Tracer.new "$" "$") wTs1 with
+  | error e => unfold absorb2 at h; rw [h1] at h; cases h
+  | ok a =>
+    cases h2 : absorb .fixed { allow_to_string := true } a wTs2 with
+    | error e => unfold absorb2 at h; rw [h1] at h; simp only [h2] at h; cases h
+    | ok b =>
+      refine ⟨a, b, rfl, h2, ?_⟩
+      intro e
+      have hne : absorb2 .fixed { allow_to_string := true } (Tracer.new "$" "$") wTs1 wTs2 ≠
+          absorb .fixed { allow_to_string := true } (Tracer.new "$" "$") wTs1 := by decide
+      apply hne
+      unfold absorb2
+      rw [h1]
+      show absorb .fixed { allow_to_string := true } a wTs2 = .ok a
+      rw [h2, e]
 
 end SaModel.Props.C07
